@@ -10,7 +10,7 @@ pub struct Parse;
 fn vocab() -> Vec<&'static str> {
     vec![
         "a", "é", "€", ".", "*", "+", "?", "|", "(", ")", "(?:", "(?=", "(?!", "(?<=", "(?<!", "(?>", "(?<n>", "(?P<n>", "[", "]", "[^", "{", "}", "{2}", "{2,",
-        "{18446744073709551615}", "{99999999999999999999}", "\\", "\\1", "\\2", "\\k<n>", "\\k<1>", "\\k<-1>", "\\k<99999999999>", "(?P=n)", "\\g<1>", "\\K", "\\G", "\\b", "\\d", "\\x{", "\\x41",
+        "{18446744073709551615}", "{18446744073709551616}", "{18446744073709551619}", "\\18446744073709551616", "(?(18446744073709551617)", "{99999999999999999999}", "\\", "\\1", "\\2", "\\k<n>", "\\k<1>", "\\k<-1>", "\\k<99999999999>", "(?P=n)", "\\g<1>", "\\K", "\\G", "\\b", "\\d", "\\x{", "\\x41",
         "\\u0041", "\\p{L}", "(?i)", "(?x)", "(?(1)", "(?(", "(?#", "#", " ", "^", "$", "\\z", "\\A", "\\h", "\\e", "-", ",", "1", "\\Q", "\\", "\u{0e01}", "\\x{100000000}", "\\x{10ffff}", "\\x{110000}", "\\u{fffffffff}", "\\400000000", "\\g400000000", "(?(400000000)", "\\k<400000000>",
         // unfinished counted repeats, closed comments, flag groups, free-spacing tails
         "\\k<-9223372036854775808>", "\\k<-9223372036854775807>", "\\g<-9223372036854775808>", "(?(<-9223372036854775808>)", "\\k<-18446744073709551616>",
@@ -77,6 +77,10 @@ fn deep_patterns() -> Vec<Value> {
             out.push(json!({"deep": {"open": o, "close": c, "n": n, "closed": true}}));
             out.push(json!({"deep": {"open": o, "close": c, "n": n, "closed": false}}));
         }
+    }
+    // long FLAT patterns (no nesting at all): tens of thousands of alternatives / pieces / repeats at one level must not cost native stack
+    for unit in ["a|", "(?:a)|", "a", "a*", "\\d|", "a{2}"] {
+        out.push(json!({"deep": {"open": unit, "close": "", "n": 60_000, "closed": true}}));
     }
     out
 }
